@@ -169,6 +169,9 @@ def build_go(tagged=True, race=False):
         for f in os.listdir(os.path.dirname(out)):
             if f.startswith(name.rsplit('-', 1)[0] + '-') and not f.endswith(key):
                 try:
+                    # (not the binary of a check that is running at this moment against another tree: VERIF_REPO)
+                    if time.time() - os.path.getmtime(os.path.join(os.path.dirname(out), f)) < 6 * 3600:
+                        continue
                     os.remove(os.path.join(os.path.dirname(out), f))
                 except OSError:
                     pass
